@@ -236,7 +236,10 @@ func (c *Cache) WriteFile(dest string, data []byte, perm os.FileMode) error {
 }
 
 // Filespace get directory node and return it as filespace
-func (c *Cache) Filespace(subPath string) (filesystem.Filespace, error) {
+func (c *Cache) Filespace(subPath string) (_ filesystem.Filespace, err error) {
+	if subPath, err = varutil.ReduceAbsPath(subPath); err != nil {
+		return nil, err
+	}
 	return fshelper.NewSubFS(c, subPath), nil
 }
 
